@@ -67,6 +67,10 @@ def build(events):
             ords[(g['nodeid'], g['name'])] = o + 1
             tasks.append(dict(nid=g['nodeid'], simp=(g['name'], o), cand=cand, worker=w, t=g['t']))
             if w is not None and not w['aborted'] and w.get('cand'):
+                if cand in accept and accept[cand] != bool(w['success']):
+                    # one candidate (modulo the names of fresh variables, F18), two verdicts: the command looks at those names
+                    # (or a check ran into its time limit); the deterministic `accept` of the model cannot replay that
+                    return dict(error='verdicts depend on fresh-variable names', fresh_names=True)
                 accept[cand] = bool(w['success'])
         for t in tasks:
             pass
